@@ -396,3 +396,262 @@ func DivGuard(w *load.World, c *core.Collector) {
 		return []string{"C18"}
 	})
 }
+
+// corpusSize: the number of documents of a text index is a statistic: it enters the idf formula
+// and is counted up and down, nothing is decided by comparing with it (a term "that every document
+// has" still contributes — its idf is negative, not zero); and it is counted up only for a
+// document that has tokens (behind the edge on which the analysed length is not zero), because only
+// such a document gets a record.
+func corpusSize(w *load.World, c *core.Collector) {
+	props := []string{"C05"}
+	isNumDocs := func(v ssa.Value) bool {
+		for i := 0; i < 4; i++ {
+			switch x := v.(type) {
+			case *ssa.Convert:
+				v = x.X
+				continue
+			case *ssa.ChangeType:
+				v = x.X
+				continue
+			}
+			break
+		}
+		ld, ok := v.(*ssa.UnOp)
+		if !ok || ld.Op != token.MUL {
+			return false
+		}
+		fa, ok := ld.X.(*ssa.FieldAddr)
+		return ok && strings.HasSuffix(fieldOf(fa), ".numDocs")
+	}
+	nCmp, nInc := 0, 0
+	badCmp, badInc := "", ""
+	for _, f := range w.Fns {
+		if load.PkgPath(f) != load.Mod+"/shard/index/text" || f.Synthetic != "" {
+			continue
+		}
+		for _, b := range f.Blocks {
+			for _, in := range b.Instrs {
+				bo, ok := in.(*ssa.BinOp)
+				if !ok {
+					continue
+				}
+				switch bo.Op {
+				case token.EQL, token.NEQ, token.LSS, token.LEQ, token.GTR, token.GEQ:
+					if isNumDocs(bo.X) || isNumDocs(bo.Y) {
+						nCmp++
+						badCmp = w.At(in)
+					}
+				case token.ADD:
+					_, isK := bo.Y.(*ssa.Const)
+					if !isNumDocs(bo.X) || !isK {
+						continue
+					}
+					nInc++
+					gated := false
+					for _, tb := range f.Blocks {
+						ifi, ok := tb.Instrs[len(tb.Instrs)-1].(*ssa.If)
+						if !ok {
+							continue
+						}
+						cb, neg, ok := condBinOp(ifi.Cond, 0)
+						if !ok {
+							continue
+						}
+						var other ssa.Value
+						switch {
+						case ssax.Prov(cb.X)["field:Length"]:
+							other = cb.Y
+						case ssax.Prov(cb.Y)["field:Length"]:
+							other = cb.X
+						default:
+							continue
+						}
+						z, isZ := other.(*ssa.Const)
+						if !isZ || z.Value == nil || z.Int64() != 0 {
+							continue
+						}
+						edge := -1
+						switch cb.Op {
+						case token.GTR, token.NEQ, token.LSS: // len > 0, len != 0, 0 < len
+							edge = 0
+						case token.EQL, token.LEQ, token.GEQ: // len == 0, len <= 0, 0 >= len
+							edge = 1
+						}
+						if edge < 0 {
+							continue
+						}
+						if neg {
+							edge = 1 - edge
+						}
+						if ssax.OnlyViaEdge(tb, edge, b) {
+							gated = true
+						}
+					}
+					if !gated {
+						badInc = w.At(in)
+					}
+				}
+			}
+		}
+	}
+	if badCmp != "" {
+		c.Add("RANK", "text:corpus-size-not-a-gate", core.Violation, badCmp, "something is decided by comparing with the number of documents: the corpus size is a statistic of the idf formula; a term that occurs in every document has a negative idf (log of N/(N+1)), not none, and skipping it changes scores and order", props...)
+	} else {
+		c.Add("RANK", "text:corpus-size-not-a-gate", core.OK, "", "", props...)
+	}
+	switch {
+	case nInc == 0:
+		c.Add("RANK", "text:count-follows-record", core.Undecided, "", "no increment of the text index's document count found", props...)
+	case badInc != "":
+		c.Add("RANK", "text:count-follows-record", core.Violation, badInc, "the number of documents is counted up on a way that has not tested that the analysed document has tokens: a document without tokens gets no record, is counted all the same and inflates the corpus size of every idf from then on", props...)
+	default:
+		c.Add("RANK", "text:count-follows-record", core.OK, "", "", props...)
+	}
+}
+
+// finalOrderByRequestOnly: Shard.SearchPoints orders its final list (ranked results first, then
+// the filter-only points) by the sort keys of the request and by nothing else: a sort by score
+// there puts filter-only points (score 0) before ranked ones (minus weight times distance).
+func finalOrderByRequestOnly(w *load.World, c *core.Collector) {
+	props := []string{"C06"}
+	f := findFn(w, "(*shard.Shard).SearchPoints")
+	if f == nil {
+		return // MERGE reports the missing anchor
+	}
+	bad := ""
+	var walk func(g *ssa.Function, depth int)
+	seen := map[*ssa.Function]bool{}
+	walk = func(g *ssa.Function, depth int) {
+		if g == nil || seen[g] || depth > 2 || len(g.Blocks) == 0 {
+			return
+		}
+		seen[g] = true
+		for _, a := range g.AnonFuncs {
+			walk(a, depth)
+		}
+		for _, b := range g.Blocks {
+			for _, in := range b.Instrs {
+				call, ok := in.(*ssa.Call)
+				if !ok {
+					continue
+				}
+				h := call.Call.StaticCallee()
+				if h == nil {
+					continue
+				}
+				hp := ""
+				if h.Pkg != nil {
+					hp = h.Pkg.Pkg.Path()
+				} else if o := h.Origin(); o != nil && o.Pkg != nil {
+					hp = o.Pkg.Pkg.Path()
+				}
+				if (hp == "slices" || hp == "sort") && strings.Contains(h.Name(), "Sort") || hp == "sort" && (h.Name() == "Slice" || h.Name() == "SliceStable" || h.Name() == "Stable") {
+					if len(call.Call.Args) > 0 && isSearchResultSlice(call.Call.Args[0].Type()) {
+						bad = w.At(in)
+					}
+					continue
+				}
+				if load.PkgPath(h) == load.Mod+"/shard" {
+					walk(h, depth+1)
+				}
+			}
+		}
+	}
+	walk(f, 0)
+	if bad != "" {
+		c.Add("MERGE", "final-order-by-request-only", core.Violation, bad, "the shard's final result list is sorted by something other than the request's sort keys: the list is ranked results followed by filter-only points, and a sort by score moves the filter-only points (score 0) in front of ranked ones (negative scores)", props...)
+	} else {
+		c.Add("MERGE", "final-order-by-request-only", core.OK, w.Position(f.Pos()), "", props...)
+	}
+}
+
+// QueryReadOnly: the executor does not rewrite the query it was given. A store into an option
+// block of a query (operator, value, the sub-query lists) outside the models package changes what
+// is asked: notEquals turned into equals for a set difference also matches points without the field.
+func QueryReadOnly(w *load.World, c *core.Collector) {
+	per := map[string][]lintHit{}
+	seen := map[string]bool{}
+	isQueryType := func(t types.Type) bool {
+		for {
+			if p, ok := t.Underlying().(*types.Pointer); ok {
+				t = p.Elem()
+				continue
+			}
+			break
+		}
+		nt, ok := t.(*types.Named)
+		if !ok || nt.Obj().Pkg() == nil || nt.Obj().Pkg().Path() != load.Mod+"/models" {
+			return false
+		}
+		n := nt.Obj().Name()
+		return n == "Query" || (strings.HasPrefix(n, "Search") && strings.HasSuffix(n, "Options"))
+	}
+	for _, f := range w.Fns {
+		if !load.InMod(f) || f.Synthetic != "" {
+			continue
+		}
+		pkg := load.PkgPath(f)
+		if !strings.HasPrefix(pkg, load.Mod+"/shard") {
+			continue
+		}
+		seen[pkg] = true
+		for _, b := range f.Blocks {
+			for _, in := range b.Instrs {
+				s, ok := in.(*ssa.Store)
+				if !ok {
+					continue
+				}
+				fa, ok := s.Addr.(*ssa.FieldAddr)
+				if !ok || !isQueryType(fa.X.Type()) {
+					continue
+				}
+				// a block the function builds itself (a literal it fills in) is its own
+				if _, fresh := ssax.Path(fa.X); fresh {
+					continue
+				}
+				st := ssax.StructOf(fa.X.Type())
+				per[pkg] = append(per[pkg], lintHit{w.At(in), "the executor assigns to the field " + st.Field(fa.Field).Name() + " of a query it was given: the query that is answered is no longer the one that was asked"})
+			}
+		}
+	}
+	emitLint(c, "QUERYRO", "query-rewritten", seen, per, nil)
+}
+
+// combinatorOnlyAndOr: the executor of _and/_or combines the sub-queries' sets by intersection
+// and union only. A set difference (A and x != v computed as A minus {x == v}) keeps the points
+// that have no field x at all, which the conjunction of the sub-queries does not.
+func combinatorOnlyAndOr(w *load.World, c *core.Collector) {
+	props := []string{"C02", "C06"}
+	bad := ""
+	n := 0
+	takes := map[string]bool{"AndNot": true, "Xor": true, "Remove": true, "RemoveRange": true, "Flip": true, "CheckedRemove": true, "ParAndNot": true}
+	for _, f := range w.Fns {
+		if load.PkgPath(f) != load.Mod+"/shard/index" || f.Synthetic != "" {
+			continue
+		}
+		for _, b := range f.Blocks {
+			for _, in := range b.Instrs {
+				call, ok := in.(*ssa.Call)
+				if !ok {
+					continue
+				}
+				g := call.Call.StaticCallee()
+				if g == nil || g.Pkg == nil || !strings.HasSuffix(g.Pkg.Pkg.Path(), "roaring/roaring64") {
+					continue
+				}
+				n++
+				if takes[g.Name()] {
+					bad = w.At(in)
+				}
+			}
+		}
+	}
+	switch {
+	case n == 0:
+		c.Add("MERGE", "set-algebra:only-and-or", core.Undecided, "", "no bitmap operation found in the query executor", props...)
+	case bad != "":
+		c.Add("MERGE", "set-algebra:only-and-or", core.Violation, bad, "the query executor takes elements away from a set (difference, xor, remove): _and is the intersection and _or the union of the sub-queries' sets; a notEquals answered as 'the rest minus equals' also matches the points that lack the field", props...)
+	default:
+		c.Add("MERGE", "set-algebra:only-and-or", core.OK, "", "", props...)
+	}
+}
